@@ -1,0 +1,21 @@
+//go:build verif
+
+package scheduler
+
+import "time"
+
+// The functions in this file exist only under the `verif` build tag. They
+// export existing unexported entry points of the daemon to the external
+// verification harness; they add no behaviour.
+
+// VerifSetFixedTime freezes (or, with the zero time, unfreezes) now().
+func VerifSetFixedTime(t time.Time) { setFixedTime(t) }
+
+// VerifRunTick runs one scheduler tick for the given minute.
+func (s *Scheduler) VerifRunTick(t time.Time) { s.run(t) }
+
+// VerifNextTick returns the tick that follows t.
+func (s *Scheduler) VerifNextTick(t time.Time) time.Time { return s.nextTick(t) }
+
+// VerifStartWatcher starts the DAG directory reader/watcher.
+func (s *Scheduler) VerifStartWatcher(done chan any) { s.entryReader.Start(done) }
